@@ -197,3 +197,18 @@ def build_grown(d, x, t, theta, lambda_backend=True):
         m.add_event(obj)
         order = order + [len(d["events"]) - 1]
     return m, order
+
+
+def can_twin(d):
+    return d.get("state_style") != "range" and (len(d["states"]) > 1 or len(d["params"]) > 1)
+
+
+def twin(d):
+    """the same mathematics declared in the opposite order (states, limits and parameters reversed): a different,
+    equally valid definition whose compiled functions take their arguments in another order"""
+    import copy
+    d2 = copy.deepcopy(d)
+    d2["states"] = list(reversed(d["states"]))
+    d2["limits"] = list(reversed(d.get("limits") or [None] * len(d["states"])))
+    d2["params"] = list(reversed(d["params"]))
+    return d2
